@@ -211,6 +211,17 @@ Definition Truncate (incl : bool) (tp : tparams) (st : list part) : list slot * 
   let '(infos, sl') := glob incl (tp_dry tp) (tp_maxdb tp) sorted (sum_asize sorted) sl in
   (sl', imm ++ filter (fun ti => negb (i_asize ti =? i_bsize ti)) infos).
 
+(* ---- the statement as cmdTruncate runs it ------------------------------------------------------
+   Service.Truncate hands the source condition to tindex.Visit, which first compiles it
+   (lql.BuildTagsExpFuncBySource). A condition the parser accepts and the builder refuses (malformed LIKE
+   pattern, unknown function, wrong arity: [src_ok] = false) makes Visit return the error before any
+   partition is looked at; truncateGlobally then runs on the empty list and the error is returned:
+   cmdTruncate reports nothing and fails (None). A partition whose journal cannot be opened
+   (Journals.GetOrCreate fails in the visitor) is skipped by the visitor like one that does not match:
+   it enters the model with p_match = false. *)
+Definition TruncateStmt (incl src_ok : bool) (tp : tparams) (st : list part) : option (list slot * list info) :=
+  if src_ok then Some (Truncate incl tp st) else None.
+
 (* ---- a forward reader (JIterator.ensureChkIt with getChunkByIdOrGreater): the stream a reader
         standing at journal position (cid, idx) delivers from the chunk list ---- *)
 Definition flat (cks : list chunk) : list Z := flat_map c_ts cks.
